@@ -34,6 +34,10 @@ class IsisArea(BaseLS):
     def unpack_bgpls(cls, data: Buffer) -> IsisArea:
         if not data:
             raise Notify(3, 5, 'ISIS Area: empty data')
+        # RFC 9552 5.3.1.2: an area address is 1 to 13 octets. A TLV of ~1800 octets decoded, and rendering it
+        # as a decimal number then hit the interpreter's limit on integer string conversion (ValueError)
+        if len(data) > 13:
+            raise Notify(3, 5, f'ISIS Area: {len(data)} octets, an area address has at most 13')
         return cls(data)
 
     @classmethod
